@@ -98,6 +98,14 @@ def check(run, repo):
             continue
         M, y, x = sols['M'], sols['y'], sols['x']
         names = sorted({k for c_ in comps for k in c_})
+        # descriptor counts are real numbers (fractional formula units, non-stoichiometric oxides, user descriptors):
+        # nothing on the way to the solver may store them in an integer-typed buffer
+        hz = list(I.dtype_hazards)
+        hm = [m_ for m_ in repo.modules.values() if hz and m_.relpath == hz[0][1]]
+        run.check(not hz, 'TYPE.int-buffer', 'References.get_descriptors_matrix', label + ' matrix element type',
+                  'descriptor counts are stored into an array created with an integer element type: fractional '
+                  'counts are truncated before the least-squares fit', hm[0] if hm else owner.module,
+                  hz[0][0] if hz else fn)
         run.check(same(r.attrs.get('T_ref'), Tr), 'REF.fit', 'References.fit_HoRT_offset', label + ' T_ref',
                   'common reference temperature not kept (%s)' % show(r.attrs.get('T_ref')), owner.module, fn)
         off = r.attrs.get('offset')
